@@ -620,6 +620,7 @@ pub fn dirichlet_test(spec: &DistSpec, n: u64, seed: u64) -> Result<(LawOut, u64
         total.info.edges_dropped_unresolvable += o.info.edges_dropped_unresolvable;
         total.info.worst_dkw_ratio = total.info.worst_dkw_ratio.max(o.info.worst_dkw_ratio);
         total.info.worst_cell_margin = total.info.worst_cell_margin.max(o.info.worst_cell_margin);
+        total.info.g_ratio = total.info.g_ratio.max(o.info.g_ratio);
         total.digest ^= o.digest.rotate_left(si as u32);
         if o.violation.is_some() {
             total.violation = o.violation;
@@ -723,6 +724,7 @@ pub fn geometry_test(spec: &DistSpec, n: u64, seed: u64) -> Result<(LawOut, u64)
         total.info.edges_dropped_unresolvable += o.info.edges_dropped_unresolvable;
         total.info.worst_dkw_ratio = total.info.worst_dkw_ratio.max(o.info.worst_dkw_ratio);
         total.info.worst_cell_margin = total.info.worst_cell_margin.max(o.info.worst_cell_margin);
+        total.info.g_ratio = total.info.g_ratio.max(o.info.g_ratio);
         total.digest ^= o.digest.rotate_left(si as u32);
         if o.violation.is_some() {
             total.violation = o.violation;
@@ -878,6 +880,12 @@ fn absorb(res: &mut CaseResult, o: &LawOut) {
     res.stat_sum("edges_dropped_unresolvable", o.info.edges_dropped_unresolvable as f64);
     res.stat_max("worst_dkw_ratio", o.info.worst_dkw_ratio);
     res.stat_max("worst_cell_margin", o.info.worst_cell_margin);
+    res.stat_max("worst_g_over_threshold", o.info.g_ratio);
+    if o.violation.is_none() {
+        res.stat_max("worst_dkw_ratio_among_passing", o.info.worst_dkw_ratio);
+        res.stat_max("worst_cell_margin_among_passing", o.info.worst_cell_margin);
+        res.stat_max("worst_g_over_threshold_among_passing", o.info.g_ratio);
+    }
 }
 
 impl Engine for LawEngine {
